@@ -13,8 +13,9 @@ A unit (dict):
 import os, re, shutil, time, json, glob, signal
 from vpv import *
 
-IGNORABLE = re.compile(r"NaN on |arithmetic overflow on floating-point|pointer NULL|"
-                       r"This is a placeholder message")
+# CBMC's own float-model checks are not Rust panics.  NOTE: "This is a placeholder message; Kani doesn't support message
+# formatted at runtime" is how Kani reports a panic!() whose message is formatted at run time -- a REAL panic, never ignorable.
+IGNORABLE = re.compile(r"NaN on |arithmetic overflow on floating-point")
 # classes that mean "the bound/tool was insufficient", never a violation
 UNDECIDABLE = re.compile(r"unwinding assertion|is not currently supported by Kani|unsupported|recursion unwinding")
 
